@@ -51,7 +51,9 @@ pub trait PrefixMatch<T: KeyOf> {
             && (self.keys_nonempty() ==> t.pre().len() > 0),
             r matches Some(t) ==> self.pre_matched(to_match@) == Some(*t),
             r is None ==> self.pre_matched(to_match@) is None,
-            r matches Some(t) ==> (self.only_entry() matches Some(e) ==> *t == e);
+            r matches Some(t) ==> (self.only_entry() matches Some(e) ==> *t == e),
+            // a single bracket pair matches exactly when its opening bracket is a prefix
+            self.only_entry() matches Some(e) ==> (r is Some <==> is_prefix_of(e.pre(), to_match@));
 }
 pub trait SuffixMatch<T: KeyOf> {
     spec fn suf_matched(&self, s: Seq<char>) -> Option<T>;
@@ -264,4 +266,226 @@ pub proof fn lemma_lex_items_push(f: &NarseseFormat, env: Seq<char>, right: Seq<
     assert(vx_mark(prev));
     assert(lex_items(f, env, right, first_plain, start, nt.drop_last(), prev));
     assert(seg(f, tail(env, q), nt.last(), ln));
+}
+
+// ------------------------------------------------------------------------------------------
+// C02 (term level): the recursive term segmentation INVERTS the lexical formatter's layout.
+// `ns_k(f, t, rest)` is the text of term t as the lexical formatter lays it out (lex_text, unit
+// lex_formatter) with the inter-token spaces removed (what idealize_env leaves of it), followed by
+// the text `rest` - written in continuation style so that peeling a token off the front never needs
+// re-association.  `rt_term(f, t, rest)` collects, node by node, the hypotheses of the property
+// ("strings drawn from the format's own vocabulary, names that contain no keyword"): every
+// dictionary lookup the parser performs on this text selects the term's own keyword, names consist
+// of identifier characters and stop before `rest`, closing brackets are not mistaken for
+// separators, compounds and sets have at least one component (the README grammar's rule; a
+// component-free compound is laid out as `(&, )`, which no parser of that grammar accepts).
+// The contract on segment_term then reads: on such a text the parser returns exactly t (field for
+// field, `term_eqv`) and the number of characters of t's text.
+// ------------------------------------------------------------------------------------------
+pub open spec fn ns_k(f: &NarseseFormat, t: Term, rest: Seq<char>) -> Seq<char>
+    decreases t, 0nat
+{
+    match t {
+        Term::Atom { prefix, name } => prefix@ + (name@ + rest),
+        Term::Compound { connecter, terms } =>
+            f.compound.brackets.0@ + (connecter@ + items_k(f, terms, 0, false, f.compound.brackets.1@, rest)),
+        Term::Set { left_bracket, terms, right_bracket } =>
+            left_bracket@ + items_k(f, terms, 0, true, right_bracket@, rest),
+        Term::Statement { copula, subject, predicate } =>
+            f.statement.brackets.0@ + ns_k(f, *subject, copula@ + ns_k(f, *predicate, f.statement.brackets.1@ + rest)),
+    }
+}
+/// components k.. of a component list, each preceded by the separator (the first one of a set
+/// excepted: `plain`), then the closing bracket, then `rest`
+pub open spec fn items_k(f: &NarseseFormat, v: Vec<Term>, k: nat, plain: bool, right: Seq<char>, rest: Seq<char>) -> Seq<char>
+    decreases v, v@.len() - k
+{
+    if k >= v@.len() { right + rest }
+    else if plain && k == 0 { ns_k(f, v@[k as int], items_k(f, v, k + 1, plain, right, rest)) }
+    else { f.compound.separator@ + ns_k(f, v@[k as int], items_k(f, v, k + 1, plain, right, rest)) }
+}
+/// field-for-field equality of lexical terms (strings compared by their characters)
+pub open spec fn term_eqv(a: Term, b: Term) -> bool
+    decreases a, 0nat
+{
+    match a {
+        Term::Atom { prefix, name } => b matches Term::Atom { prefix: p2, name: n2 } && prefix@ == p2@ && name@ == n2@,
+        Term::Compound { connecter, terms } => b matches Term::Compound { connecter: c2, terms: t2 }
+            && connecter@ == c2@ && terms@.len() == t2@.len() && terms_eqv(terms, t2@, terms@.len()),
+        Term::Set { left_bracket, terms, right_bracket } => b matches Term::Set { left_bracket: l2, terms: t2, right_bracket: r2 }
+            && left_bracket@ == l2@ && right_bracket@ == r2@ && terms@.len() == t2@.len() && terms_eqv(terms, t2@, terms@.len()),
+        Term::Statement { copula, subject, predicate } => b matches Term::Statement { copula: c2, subject: s2, predicate: p2 }
+            && copula@ == c2@ && term_eqv(*subject, *s2) && term_eqv(*predicate, *p2),
+    }
+}
+/// the first n components are pairwise term_eqv
+pub open spec fn terms_eqv(v: Vec<Term>, w: Seq<Term>, n: nat) -> bool
+    decreases v, n
+{
+    if n == 0 { true } else if n > v@.len() || n > w.len() { false }
+    else { terms_eqv(v, w, (n - 1) as nat) && term_eqv(v@[n - 1], w[n - 1]) }
+}
+/// hypotheses of the round trip for term t followed by `rest` (see the header comment)
+pub open spec fn rt_term(f: &NarseseFormat, t: Term, rest: Seq<char>) -> bool
+    decreases t, 0nat
+{
+    let env = ns_k(f, t, rest);
+    match t {
+        Term::Atom { prefix, name } =>
+            // not taken for a set, a compound or a statement
+            f.compound.set_brackets.pre_matched(env) is None
+            && !is_prefix_of(f.compound.brackets.0@, env)
+            && !is_prefix_of(f.statement.brackets.0@, env)
+            // the prefix dictionary selects the atom's own prefix
+            && (f.atom.prefixes.pre_matched(env) matches Some(p) && p@ == prefix@)
+            && prefix@.len() + name@.len() > 0
+            // the name consists of identifier characters, no copula starts inside it ...
+            && (forall|j: int| 0 <= j < name@.len() ==> f.atom.is_identifier.spec_call(#[trigger] name@[j])
+                    && f.statement.copulas.pre_matched(tail(name@ + rest, j)) is None)
+            // ... and it ends where `rest` starts
+            && (rest.len() > 0 ==> !(f.atom.is_identifier.spec_call(rest[0]) && f.statement.copulas.pre_matched(rest) is None)),
+        Term::Compound { connecter, terms } =>
+            f.compound.set_brackets.pre_matched(env) is None
+            && terms@.len() >= 1
+            && (f.compound.connecters.pre_matched(connecter@ + items_k(f, terms, 0, false, f.compound.brackets.1@, rest)) matches Some(k) && k@ == connecter@)
+            && rt_items(f, terms, 0, false, f.compound.brackets.1@, rest),
+        Term::Set { left_bracket, terms, right_bracket } =>
+            (f.compound.set_brackets.pre_matched(env) matches Some(p) && p.0@ == left_bracket@ && p.1@ == right_bracket@)
+            && terms@.len() >= 1
+            && rt_items(f, terms, 0, true, right_bracket@, rest),
+        Term::Statement { copula, subject, predicate } => {
+            let after_subject = copula@ + ns_k(f, *predicate, f.statement.brackets.1@ + rest);
+            f.compound.set_brackets.pre_matched(env) is None
+            && !is_prefix_of(f.compound.brackets.0@, env)
+            && rt_term(f, *subject, after_subject)
+            && (f.statement.copulas.pre_matched(after_subject) matches Some(k) && k@ == copula@)
+            && rt_term(f, *predicate, f.statement.brackets.1@ + rest)
+        },
+    }
+}
+pub open spec fn rt_items(f: &NarseseFormat, v: Vec<Term>, k: nat, plain: bool, right: Seq<char>, rest: Seq<char>) -> bool
+    decreases v, v@.len() - k
+{
+    if k >= v@.len() { true } else {
+        // the closing bracket is not seen where a component starts
+        (plain && k == 0 || !lenient_prefix(items_k(f, v, k, plain, right, rest), right))
+        && rt_term(f, v@[k as int], items_k(f, v, k + 1, plain, right, rest))
+        && rt_items(f, v, k + 1, plain, right, rest)
+    }
+}
+pub open spec fn rt_hyp(f: &NarseseFormat, env: Seq<char>, t: Term, rest: Seq<char>) -> bool {
+    env == ns_k(f, t, rest) && rt_term(f, t, rest)
+}
+pub open spec fn rt_res(r: ParseResult<(Term, ParseIndex)>, env: Seq<char>, t: Term, rest: Seq<char>) -> bool {
+    r matches Ok(p) && term_eqv(p.0, t) && p.1 == env.len() - rest.len()
+}
+/// the text of a term followed by `rest` ends with `rest`
+pub proof fn lemma_ns_k_ends(f: &NarseseFormat, t: Term, rest: Seq<char>)
+    ensures ns_k(f, t, rest).len() >= rest.len(),
+        tail(ns_k(f, t, rest), ns_k(f, t, rest).len() - rest.len()) == rest,
+    decreases t, 0nat
+{
+    let env = ns_k(f, t, rest);
+    match t {
+        Term::Atom { prefix, name } => {
+            assert(tail(env, env.len() - rest.len()) =~= rest);
+        },
+        Term::Compound { connecter, terms } => {
+            let it = items_k(f, terms, 0, false, f.compound.brackets.1@, rest);
+            lemma_items_k_ends(f, terms, 0, false, f.compound.brackets.1@, rest);
+            assert(tail(env, env.len() - rest.len()) =~= tail(it, it.len() - rest.len()));
+        },
+        Term::Set { left_bracket, terms, right_bracket } => {
+            let it = items_k(f, terms, 0, true, right_bracket@, rest);
+            lemma_items_k_ends(f, terms, 0, true, right_bracket@, rest);
+            assert(tail(env, env.len() - rest.len()) =~= tail(it, it.len() - rest.len()));
+        },
+        Term::Statement { copula, subject, predicate } => {
+            let r2 = f.statement.brackets.1@ + rest;
+            let p = ns_k(f, *predicate, r2);
+            let c = copula@ + p;
+            let s = ns_k(f, *subject, c);
+            lemma_ns_k_ends(f, *predicate, r2);
+            lemma_ns_k_ends(f, *subject, c);
+            assert(tail(r2, r2.len() - rest.len()) =~= rest);
+            assert(tail(p, p.len() - rest.len()) =~= tail(tail(p, p.len() - r2.len()), r2.len() - rest.len()));
+            assert(tail(c, c.len() - rest.len()) =~= tail(p, p.len() - rest.len()));
+            assert(tail(s, s.len() - rest.len()) =~= tail(tail(s, s.len() - c.len()), c.len() - rest.len()));
+            assert(tail(env, env.len() - rest.len()) =~= tail(s, s.len() - rest.len()));
+        },
+    }
+}
+pub proof fn lemma_items_k_ends(f: &NarseseFormat, v: Vec<Term>, k: nat, plain: bool, right: Seq<char>, rest: Seq<char>)
+    ensures items_k(f, v, k, plain, right, rest).len() >= rest.len(),
+        tail(items_k(f, v, k, plain, right, rest), items_k(f, v, k, plain, right, rest).len() - rest.len()) == rest,
+    decreases v, v@.len() - k
+{
+    let it = items_k(f, v, k, plain, right, rest);
+    if k >= v@.len() {
+        assert(tail(it, it.len() - rest.len()) =~= rest);
+    } else {
+        let nx = items_k(f, v, k + 1, plain, right, rest);
+        let e = ns_k(f, v@[k as int], nx);
+        lemma_items_k_ends(f, v, k + 1, plain, right, rest);
+        lemma_ns_k_ends(f, v@[k as int], nx);
+        assert(tail(e, e.len() - rest.len()) =~= tail(tail(e, e.len() - nx.len()), nx.len() - rest.len()));
+        if plain && k == 0 {
+        } else {
+            assert(tail(it, it.len() - rest.len()) =~= tail(e, e.len() - rest.len()));
+        }
+    }
+}
+/// skipping a whole term: what follows it in the text is `rest`
+pub proof fn lemma_skip_term(f: &NarseseFormat, env: Seq<char>, at: int, t: Term, rest: Seq<char>)
+    requires 0 <= at <= env.len(), tail(env, at) == ns_k(f, t, rest)
+    ensures at + (ns_k(f, t, rest).len() - rest.len()) <= env.len(),
+        tail(env, at + (ns_k(f, t, rest).len() - rest.len())) == rest,
+{
+    lemma_ns_k_ends(f, t, rest);
+    let x = ns_k(f, t, rest);
+    assert(tail(env, at + (x.len() - rest.len())) =~= tail(tail(env, at), x.len() - rest.len()));
+}
+/// peeling a keyword off the front
+pub proof fn lemma_tail_concat(a: Seq<char>, b: Seq<char>)
+    ensures tail(a + b, a.len() as int) == b, is_prefix_of(a, a + b), lenient_prefix(a + b, a),
+{
+    assert(tail(a + b, a.len() as int) =~= b);
+    assert((a + b).subrange(0, a.len() as int) =~= a);
+}
+pub proof fn lemma_tail_tail(env: Seq<char>, i: int, j: int)
+    requires 0 <= i, 0 <= j, i + j <= env.len()
+    ensures tail(tail(env, i), j) == tail(env, i + j)
+{
+    assert(tail(tail(env, i), j) =~= tail(env, i + j));
+}
+
+/// what follows the subject of a statement in its text
+pub open spec fn st_after_subject(f: &NarseseFormat, t: Term, rest: Seq<char>) -> Seq<char> {
+    t->copula@ + ns_k(f, *t->predicate, f.statement.brackets.1@ + rest)
+}
+/// C02 loop invariant of the component loops: the components parsed so far are the first ones of
+/// the term's list, the cursor stands where the remaining ones (then the closing bracket, then
+/// `rest`) start, and the hypotheses for the remaining ones hold
+pub open spec fn list_inv(f: &NarseseFormat, env: Seq<char>, tv: Vec<Term>, got: Seq<Term>, pos: int, plain: bool, right: Seq<char>, rest: Seq<char>) -> bool {
+    &&& got.len() <= tv@.len()
+    &&& forall|i: int| 0 <= i < got.len() ==> term_eqv(#[trigger] got[i], tv@[i])
+    &&& 0 <= pos <= env.len()
+    &&& tail(env, pos) == items_k(f, tv, got.len(), plain, right, rest)
+    &&& rt_items(f, tv, got.len(), plain, right, rest)
+}
+pub proof fn lemma_terms_eqv(v: Vec<Term>, w: Seq<Term>, n: nat)
+    requires n <= v@.len(), n <= w.len(), forall|i: int| 0 <= i < n ==> term_eqv(#[trigger] v@[i], w[i])
+    ensures terms_eqv(v, w, n)
+    decreases n
+{
+    if n > 0 { lemma_terms_eqv(v, w, (n - 1) as nat); }
+}
+
+/// the text that reaches the term segmentation for the input string `input`
+pub open spec fn idealized(f: &NarseseFormat, input: Seq<char>) -> Seq<char> {
+    if f.space.remove_spaces_before_parse { strip_spaces(input, &f.space.is_for_parse) } else { input }
+}
+/// C02 at the entry points: a string that idealizes to the formatter's text of t parses to t
+pub open spec fn rt_entry(f: &NarseseFormat, input: Seq<char>, r: ParseResult<Term>) -> bool {
+    forall|t: Term| #[trigger] rt_hyp(f, idealized(f, input), t, Seq::<char>::empty()) ==> (r matches Ok(t2) && term_eqv(t2, t))
 }
